@@ -60,6 +60,13 @@ MODULE = {
                                                         size=None), 'opt': 'optional'}},
                       {'member': {'name': 'a2', 't': T('INTEGER', c={'lo': 0, 'hi': 7, 'ext': False}, named=None), 'opt': 'optional'}}])),
         ('U', T('STRING', sk='UTF8String', size=None, alpha=None)),
+    ] + [
+        # numbers of extension additions around the multiples of 8 (presence bitmaps, unused-bits octets)
+        ('X%d' % k, T('SEQUENCE', root=[{'name': 'a', 't': T('INTEGER', c={'lo': 0, 'hi': 255, 'ext': False}, named=None), 'opt': None}],
+                      ext=[{'member': {'name': 'e%d' % i, 't': T('INTEGER', c={'lo': 0, 'hi': 255, 'ext': False}, named=None),
+                                       'opt': 'optional'}} for i in range(1, k + 1)]))
+        for k in (7, 8, 9, 15, 16, 17, 24)
+    ] + [
         ('I', T('STRING', sk='IA5String', size=None, alpha=None)),
     ]}
 TEXT = G.render_module(MODULE, G.make_resolver(MODULE))
@@ -67,7 +74,7 @@ TEXT = G.render_module(MODULE, G.make_resolver(MODULE))
 
 QUICK = {('O', 127), ('O', 128), ('O', 16383), ('O', 16384), ('O', 49152), ('S', 16384), ('LB', 16384), ('LB', 49152),
          ('I', 16384), ('U', 128), ('G', 513), ('G', 8192), ('A', 513), ('CH', 513), ('CH', 8192), ('LO', 16384),
-         ('L3', 1366), ('L3', 1500), ('GA', 1366), ('GA', 1500)}
+         ('L3', 1366), ('L3', 1500), ('GA', 1366), ('GA', 1500), ('X7', 7), ('X8', 8), ('X8', 1), ('X9', 9), ('X16', 16), ('X16', 2)}
 ODD_WIDTH_COUNTS = [1364, 1365, 1366, 1367, 1500, 2731, 2732]
 
 
@@ -83,6 +90,12 @@ def cases(lengths, quick=False):
                     Raw('(VSeq [("l"%%string, %s); ("tail"%%string, VBytes [1; 2; 3]); ("last"%%string, VBool true)])' % l3), n))
         out.append(('GA', {'id': True, 'a1': [b % 8 for b in p], 'a2': 5},
                     Raw('(VSeq [("id"%%string, VBool true); ("a1"%%string, %s); ("a2"%%string, VInt 5)])' % l3), n))
+    for k in (7, 8, 9, 15, 16, 17, 24):
+        for present in ([1], [2, k], list(range(1, k + 1))):
+            v = {'a': 1}
+            v.update({'e%d' % i: (3 * i) % 256 for i in present})
+            cv = Raw('(VSeq [("a"%%string, VInt 1)%s])' % ''.join('; ("e%d"%%string, VInt %d)' % (i, (3 * i) % 256) for i in present))
+            out.append(('X%d' % k, v, cv, len(present) if len(present) < k else k))
     for n in lengths:
         p = pattern(n)
         pv = Raw('(VBytes (pattern %d))' % n)
